@@ -20,6 +20,13 @@ static int run(const std::vector<uint8_t>& msg, const char* what) {
 }
 int main(int argc, char** argv) {
     Replay r(argv[1]);
+    if (r.str("obligation").find("pointer_loops") != std::string::npos) {
+        // a legal 34-label name (ip6.arpa) must be readable: only followed pointers may count against the loop limit
+        std::string name = "b.a.9.8.7.6.5.0.0.0.0.0.0.0.0.0.0.0.0.0.0.0.0.0.8.b.d.0.1.0.0.2.ip6.arpa";
+        DNS dns; dns.add_query(DNS::query(name, DNS::PTR, DNS::IN));
+        try { return dns.queries().at(0).dname() == name ? 0 : 1; }
+        catch (const std::exception& e) { printf("DEFECT: queries() threw %s for a legal 34-label name\n", e.what()); return 1; }
+    }
     // 27-byte response: 1 answer, root owner name, CNAME, RDLENGTH 4, RDATA = 03 'a' 'b' 'c' (no terminating zero)
     static const uint8_t m1[] = { 0x12,0x34, 0x81,0x80, 0,0, 0,1, 0,0, 0,0,   0,  0,5, 0,1, 0,0,0,60, 0,4,  3,'a','b','c' };
     run(std::vector<uint8_t>(m1, m1 + sizeof m1), "CNAME whose last label ends at the end of the message");
